@@ -86,27 +86,127 @@ func rulesMashAdd(c *Ctx, r *Report) {
 	mh := info.Defs[fd.Type.Params.List[0].Names[0]]
 	kParam := info.Defs[fd.Type.Params.List[1].Names[0]]
 	seqs := info.Defs[fd.Type.Params.List[2].Names[0]]
+	// a local that is defined once (x := e) and never assigned again stands for e
+	resolve := func(body *ast.BlockStmt, e ast.Expr) ast.Expr {
+		for depth := 0; depth < 3; depth++ {
+			id, ok := ast.Unparen(e).(*ast.Ident)
+			if !ok {
+				return e
+			}
+			obj := info.Uses[id]
+			if obj == nil {
+				return e
+			}
+			var def ast.Expr
+			n := 0
+			ast.Inspect(body, func(m ast.Node) bool {
+				as, ok := m.(*ast.AssignStmt)
+				if !ok {
+					return true
+				}
+				for i, l := range as.Lhs {
+					if lid, ok := ast.Unparen(l).(*ast.Ident); ok && (info.Defs[lid] == obj || info.Uses[lid] == obj) {
+						n++
+						if len(as.Lhs) == len(as.Rhs) && as.Tok == token.DEFINE && info.Defs[lid] == obj {
+							def = as.Rhs[i]
+						}
+					}
+				}
+				return true
+			})
+			if n != 1 || def == nil {
+				return e
+			}
+			e = def
+		}
+		return e
+	}
 	// outer and inner range
 	var outer, inner *ast.RangeStmt
-	ast.Inspect(fd.Body, func(n ast.Node) bool {
-		rs, ok := n.(*ast.RangeStmt)
-		if !ok {
+	find := func(body *ast.BlockStmt, seqsObj types.Object) {
+		ast.Inspect(body, func(n ast.Node) bool {
+			rs, ok := n.(*ast.RangeStmt)
+			if !ok {
+				return true
+			}
+			if id, ok := ast.Unparen(rs.X).(*ast.Ident); ok && seqsObj != nil && info.Uses[id] == seqsObj && outer == nil {
+				outer = rs
+			} else if isCallTo(info, resolve(body, rs.X), modPath+"/sequtil.CanonicalSubsequences") != nil {
+				inner = rs
+			}
 			return true
-		}
-		if id, ok := ast.Unparen(rs.X).(*ast.Ident); ok && info.Uses[id] == seqs && outer == nil {
-			outer = rs
-		} else if isCallTo(info, rs.X, modPath+"/sequtil.CanonicalSubsequences") != nil {
-			inner = rs
-		}
-		return true
-	})
+		})
+	}
+	find(fd.Body, seqs)
+	mhAdd := mh          // Add's own sketch parameter (mh may become a helper's parameter below)
+	innerBody := fd.Body // the function body the inner loop lives in
+	var helperCall *ast.CallExpr
+	if outer != nil && inner == nil {
+		// the per-sequence work in a helper of the package: helper(…, seq, …)
+		ast.Inspect(outer.Body, func(n ast.Node) bool {
+			call, ok := n.(*ast.CallExpr)
+			if !ok || inner != nil {
+				return true
+			}
+			fn, _ := typeutil.Callee(info, call).(*types.Func)
+			if fn == nil || fn.Pkg() != p.Types {
+				return true
+			}
+			hd := findDecl(p, fn.Name())
+			if hd == nil || hd.Body == nil || hd.Recv != nil {
+				return true
+			}
+			find(hd.Body, nil)
+			if inner != nil {
+				helperCall, innerBody = call, hd.Body
+				r.analysed("mash." + fn.Name())
+				// parameters of the helper stand for the arguments of the call
+				var params []types.Object
+				for _, fld := range hd.Type.Params.List {
+					for _, nm := range fld.Names {
+						params = append(params, info.Defs[nm])
+					}
+				}
+				for i, a := range call.Args {
+					if i >= len(params) {
+						break
+					}
+					switch identObj(info, a) {
+					case mh:
+						mh = params[i]
+					case kParam:
+						kParam = params[i]
+					}
+				}
+			}
+			return true
+		})
+	}
 	if outer == nil || inner == nil {
 		r.violated("CANON", where, "k-mer source", c.pos(fd.Pos()), "Add does not range over sequtil.CanonicalSubsequences(...) for each element of seqs")
 		return
 	}
 	seqVar := identObj(info, outer.Value)
-	cs := isCallTo(info, inner.X, modPath+"/sequtil.CanonicalSubsequences")
-	up := isCallTo(info, cs.Args[0], "bytes.ToUpper")
+	if helperCall != nil {
+		// which parameter receives the sequence
+		hdFn, _ := typeutil.Callee(info, helperCall).(*types.Func)
+		hd := findDecl(p, hdFn.Name())
+		var params []types.Object
+		for _, fld := range hd.Type.Params.List {
+			for _, nm := range fld.Names {
+				params = append(params, info.Defs[nm])
+			}
+		}
+		var seqParam types.Object
+		for i, a := range helperCall.Args {
+			if i < len(params) && identObj(info, a) == seqVar && seqVar != nil {
+				seqParam = params[i]
+			}
+		}
+		seqVar = seqParam
+	}
+	cs := isCallTo(info, resolve(innerBody, inner.X), modPath+"/sequtil.CanonicalSubsequences")
+	up := isCallTo(info, resolve(innerBody, cs.Args[0]), "bytes.ToUpper")
 	okUp := up != nil && identObj(info, up.Args[0]) == seqVar && seqVar != nil
 	okK := identObj(info, cs.Args[1]) == kParam
 	r.check(okUp && okK, "CANON", where, "k-mer source", c.pos(cs.Pos()), "the k-mers are CanonicalSubsequences(bytes.ToUpper(seq), k) of the sequence itself", fmt.Sprintf("the iterator is not CanonicalSubsequences(bytes.ToUpper(seq), k) applied directly to each sequence (upper-cased unconditionally: %v, k passed through: %v): case or strand variants give different sketches", okUp, okK))
@@ -118,6 +218,29 @@ func rulesMashAdd(c *Ctx, r *Report) {
 			if nd == ast.Node(inner.X) {
 				innerBlocks = append(innerBlocks, b)
 			}
+			if helperCall != nil {
+				ast.Inspect(nd, func(m ast.Node) bool {
+					if m == ast.Node(helperCall) {
+						innerBlocks = append(innerBlocks, b)
+					}
+					return true
+				})
+			}
+		}
+	}
+	if helperCall != nil {
+		// and inside the helper every path reaches the k-mer loop
+		hg := cfg.New(innerBody, mayReturn(info))
+		var hb []*cfg.Block
+		for _, b := range hg.Blocks {
+			for _, nd := range b.Nodes {
+				if nd == ast.Node(inner.X) {
+					hb = append(hb, b)
+				}
+			}
+		}
+		if len(hg.Blocks) == 0 || cfgReachExitAvoiding(hg.Blocks[0], hb) {
+			innerBlocks = nil
 		}
 	}
 	r.check(len(og.Blocks) > 0 && !cfgReachExitAvoiding(og.Blocks[0], innerBlocks), "CANON", where, "every sequence is hashed", c.pos(outer.Pos()), "every iteration over seqs reaches the k-mer loop", "some sequences can skip the k-mer loop (a conditional around it): the sketch no longer depends on the k-mer content alone")
@@ -270,6 +393,21 @@ func rulesMashAdd(c *Ctx, r *Report) {
 	}
 	r.check(len(ig.Blocks) > 0 && !cfgReachExitAvoiding(ig.Blocks[0], pushBlocks) && len(pushBlocks) > 0, "TS-HASH", where, "every k-mer is pushed", c.pos(inner.Pos()), "every iteration of the k-mer loop reaches mh.Push", "some k-mers can skip mh.Push")
 	// the hasher is murmur3.New64WithSeed(Seed)
+	if helperCall != nil {
+		// the hasher the helper uses is the one Add passes
+		hdFn, _ := typeutil.Callee(info, helperCall).(*types.Func)
+		if hd := findDecl(p, hdFn.Name()); hd != nil {
+			i := 0
+			for _, fld := range hd.Type.Params.List {
+				for _, nm := range fld.Names {
+					if info.Defs[nm] == callerH && i < len(helperCall.Args) {
+						callerH = identObj(info, helperCall.Args[i])
+					}
+					i++
+				}
+			}
+		}
+	}
 	okSeed := false
 	ast.Inspect(fd.Body, func(n ast.Node) bool {
 		as, ok := n.(*ast.AssignStmt)
@@ -289,7 +427,7 @@ func rulesMashAdd(c *Ctx, r *Report) {
 	var sortBlocks, loopBlocks []*cfg.Block
 	for _, b := range g.Blocks {
 		for _, nd := range b.Nodes {
-			if methodCallOn(info, nd, mh, "Sort") != nil {
+			if methodCallOn(info, nd, mhAdd, "Sort") != nil {
 				sortBlocks = append(sortBlocks, b)
 			}
 			if nd == ast.Node(inner.X) || nd == ast.Node(outer.X) {
